@@ -332,17 +332,24 @@ fn build_random_code(
         if m >= 2 {
             let k = n - m;
             let need = (usize::BITS - (m - 1).leading_zeros()) as u8; // ceil(log2 m)
-            if need < maxdepth {
-                let topmax = maxdepth - need;
-                if k + 1 >= 2 && (k + 1) <= (1usize << topmax.min(20)) {
-                    let top = random_complete_depths(k + 1, topmax, mix, false);
-                    // group root = shallowest leaf
-                    let (ri, &r) = top.iter().enumerate().min_by_key(|(_, &d)| d).unwrap();
+            if need < maxdepth && k + 1 >= 2 && (k + 1) <= (1usize << (maxdepth as usize).min(20)) {
+                // the top tree may be as deep as the alphabet allows, so that symbols with
+                // codes LONGER than the group's shared length exist as well; the group hangs
+                // under a random leaf that is shallow enough
+                for _try in 0..8 {
+                    let top = random_complete_depths(k + 1, maxdepth, mix, false);
+                    let eligible: Vec<usize> = (0..top.len()).filter(|&i| top[i] + need <= maxdepth).collect();
+                    if eligible.is_empty() {
+                        continue;
+                    }
+                    let ri = eligible[mix.below(eligible.len())];
+                    let r = top[ri];
                     let sub = random_complete_depths(m, maxdepth - r, mix, true);
                     let mut d: Vec<u8> = top.iter().enumerate().filter(|(i, _)| *i != ri).map(|(_, &x)| x).collect();
                     d.extend(sub.iter().map(|&x| x + r));
                     depths = d;
                     grouped_ok = true;
+                    break;
                 }
             }
         }
